@@ -137,6 +137,18 @@ def run(chk, prog):
         te, fe = c05.consistent_switch(tctx, c05.cs_pred)
         chk.require(bool(te) and bool(fe), "R3", tctx.fn, "prefix-iff-consistent-snapshot",
                     "no branch on consistent_snapshot selects between the prefixed and the plain file name")
+        hex_blocks, plain_blocks = [], []
+        for b in tctx.body.blocks:
+            for s in b.stmts:
+                if s.k == "assign" and s.place.local == 0 and s.rv.k == "agg" and s.rv.j.get("ak") == "tuple":
+                    shs = set(shape(template_of_origin(tctx, o)[0]) for o in tctx.origins.of_operand(s.rv.ops[1]))
+                    (hex_blocks if shs == {'HEX"."RESOLVED'} else plain_blocks).append(b.idx)
+        p1 = tctx.cfg.witness_path(hex_blocks, te)
+        p2 = tctx.cfg.witness_path(plain_blocks, fe)
+        chk.require(bool(hex_blocks) and bool(plain_blocks) and p1 is None and p2 is None, "R3", tctx.fn,
+                    "prefixed-exactly-when-consistent",
+                    "the digest-prefixed file name is not selected exactly on the consistent_snapshot == true edge "
+                    "(and the plain one on the false edge)", path=tctx.describe_path(p1 or p2))
     # R4 who may read targets_base_url
     readers = set()
     for b in prog.bodies.values():
